@@ -1,5 +1,5 @@
 ------------------------- MODULE AsyncMapAsyncTrace -------------------------
-(* Trace validation of the real map_async node against AsyncMapAsync.  Insert and WorkGet are silent; the   *)
+(* Trace validation of the real map_async node against AsyncMapAsync.  Insert, WorkGet and WorkDrop are silent; the   *)
 (* logged queue length pins them down.                                                                     *)
 EXTENDS AsyncMapAsync, Json, IOUtils, TLCExt
 Traces == JsonDeserialize(IOEnv.TRACE_FILE)
@@ -13,6 +13,8 @@ Event(ev) ==
     CASE ev.ev = "Arrive" -> Arrive(ev.e) /\ (ev.fired <=> Len(fired') > Len(fired))
       [] ev.ev = "FuncStart" -> ev.e \in running /\ Same
       [] ev.ev = "FuncFinish" -> FuncFinish(ev.e)
+      [] ev.ev = "FuncFail" -> FuncFail(ev.e)
+      [] ev.ev = "ReleaseFailed" -> WorkDrop /\ cur = ev.e /\ ReleaseFailed      \* a release by the worker without a delivery
       [] ev.ev = "CbEmit" -> WorkEmit /\ cur = ev.e /\ ev.md = <<ev.e>>
       [] ev.ev = "ConsumerDone" -> ConsumerDone
       [] ev.ev = "Release" -> WorkRelease /\ cur = ev.e /\ rc'[ev.e] = ev.count /\ (ev.fired <=> Len(fired') > Len(fired))
@@ -28,8 +30,8 @@ TraceNext ==
     \/ /\ l <= Len(T) /\ Event(T[l])
        /\ l' = l + 1 /\ TLCSet(tid, Max(TLCGet(tid), l + 1)) /\ UNCHANGED tid
        /\ Watch
-    \/ /\ l <= Len(T) /\ ((\E e \in Elems : Insert(e)) \/ WorkGet) /\ UNCHANGED <<tid, l>> /\ Watch
+    \/ /\ l <= Len(T) /\ ((\E e \in Elems : Insert(e)) \/ WorkGet \/ (~ReleaseFailed /\ WorkDrop)) /\ UNCHANGED <<tid, l>> /\ Watch
 TraceSpec == TraceInit /\ [][TraceNext]_tvars
-TraceInv == InOrder /\ Lossless /\ RcBalance
+TraceInv == InOrder /\ Lossless /\ FailedNeverSignalled /\ RcBalance
 Report == \A i \in 1 .. Len(Traces) : PrintT(<<"REACHED", Traces[i].id, TLCGet(i), Len(Traces[i].ev) + 1>>)
 =============================================================================
